@@ -17,7 +17,7 @@
 #include "exec.h"
 
 struct mt_ctx {
-	int id, entries, sorter; uint64_t seed;
+	int id, entries, sorter, exact, extra; uint64_t seed;
 	struct mtbl_threadpool *tp; pthread_barrier_t *bar; struct mtbl_reader *shared;
 	char path[400]; char err[200];
 };
@@ -52,6 +52,13 @@ static void *mt_caller(void *p)
 		mtbl_sorter_options_set_threadpool(so, c->tp);
 		struct mtbl_sorter *s = mtbl_sorter_init(so);
 		for (int i = c->entries - 1; i >= 0; i--) { mt_key(key, c->seed, i); sprintf(val, "v%d", i); mtbl_sorter_add(s, (uint8_t *)key, strlen(key), (uint8_t *)val, strlen(val)); }
+		if (c->exact) {
+			/* stop adding exactly when a chunk has just been handed to the pool: nothing is left in memory at mtbl_sorter_write() */
+			extern size_t vf_sorter_pending(struct mtbl_sorter *);
+			for (int i = c->entries; vf_sorter_pending(s) != 0 && i < c->entries + 4000; i++) {
+				mt_key(key, c->seed, i); sprintf(val, "v%d", i); mtbl_sorter_add(s, (uint8_t *)key, strlen(key), (uint8_t *)val, strlen(val)); c->extra++;
+			}
+		}
 		if (mtbl_sorter_write(s, w) != mtbl_res_success) snprintf(c->err, sizeof c->err, "sorter_write failed");
 		mtbl_sorter_destroy(&s); mtbl_sorter_options_destroy(&so);
 	} else {
@@ -62,7 +69,7 @@ static void *mt_caller(void *p)
 	}
 	mtbl_writer_destroy(&w); mtbl_writer_options_destroy(&wo);
 	long n = count_file(c->path);
-	if (n != c->entries && !c->err[0]) snprintf(c->err, sizeof c->err, "file of caller %d holds %ld entries, expected %d", c->id, n, c->entries);
+	if (n != c->entries + c->extra && !c->err[0]) snprintf(c->err, sizeof c->err, "file of caller %d holds %ld entries, expected %d", c->id, n, c->entries);
 	unlink(c->path);
 	return NULL;
 }
@@ -112,7 +119,8 @@ int ops_mt(char **args, int na)
 		struct mt_ctx *cx = calloc(nthr, sizeof *cx); pthread_t *th = calloc(nthr, sizeof *th);
 		for (int i = 0; i < nthr; i++) {
 			cx[i].id = i; cx[i].entries = entries; cx[i].seed = seed + q; cx[i].tp = tp; cx[i].bar = &bar; cx[i].shared = shared;
-			cx[i].sorter = sorters && (i % 2 == 1);
+			cx[i].sorter = sorters && (i % 2 == 1 || sorters == 2);
+			cx[i].exact = cx[i].sorter && ((q + i) % 2 == 0);
 			if (i >= callers) cx[i].seed = seed;
 			snprintf(cx[i].path, sizeof cx[i].path, "%s/mt-%d.mtbl", vf_tmpdir, i);
 			pthread_create(&th[i], NULL, i < callers ? mt_caller : mt_reader, &cx[i]);
